@@ -44,6 +44,9 @@ type Segment struct {
 	// 正则表达式特有参数，用于缓存当前节点的正则编译结果。
 	expr *regexp.Regexp
 
+	// 正则表达式特有参数，仅包含规则本身，用于验证参数值是否完整匹配该规则。
+	whole *regexp.Regexp
+
 	// 拦截器的处理函数
 	matcher InterceptorFunc
 }
@@ -117,6 +120,9 @@ func (i *Interceptors) NewSegment(val string) (*Segment, error) {
 		return nil, err
 	}
 	seg.expr = expr
+	if seg.whole, err = regexp.Compile("^(?:" + seg.rule + ")$"); err != nil {
+		return nil, err
+	}
 	seg.calcAmbiguousLength()
 	return seg, nil
 }
@@ -210,9 +216,7 @@ func (seg *Segment) Valid(pattern string) bool {
 	case Interceptor:
 		return seg.matcher(pattern)
 	case Regexp:
-		pattern += seg.Suffix
-		locs := seg.expr.FindStringIndex(pattern)
-		return locs != nil && locs[0] == 0 && locs[1] == len(pattern)
+		return seg.whole.MatchString(pattern)
 	}
 	return true
 }
